@@ -60,8 +60,8 @@ def field_names(fsdef, tag):
 def fieldset(fsdef, tag):
     """Register (once per process) and return the AEIC FieldSet for a definition."""
     name = fs_name(fsdef, tag)
-    if name in _REG:
-        return _REG[name]
+    # Always built anew (same name, same definition: allowed by the registry): every case gets its own
+    # FieldSet / FieldMetadata objects, so nothing a case does to them can reach another case.
     from AEIC.storage import Dimensions, FieldMetadata, FieldSet
 
     fields = {}
@@ -146,7 +146,67 @@ def init():
         SPECIES_POS[s.name] = i
 
 
-def to_aeic(model, dt):
+ARRAY_REPRS = ['fresh', 'strided', 'column', 'reversed', 'readonly', 'fortran-row', 'bigendian']
+SCALAR_REPRS = ['python', 'np-same', 'np-other']
+_OTHER = {'f8': np.float32, 'f4': np.float64, 'i4': np.int64, 'i8': np.int32}
+
+
+def make_array(v, dt, rep='fresh', sources=None):
+    """The same numbers in different in-memory representations (what a caller may legitimately hand
+    over: a column of a 2-D table, a strided / reversed / read-only view, another byte order).
+    `sources` collects the caller-side buffers so that the harness can overwrite them later."""
+    t = NPDT[dt]
+    n = len(v)
+    junk = 77 if dt in ('i4', 'i8') else -777.5
+    if rep == 'fresh' or dt == 'str':
+        a = np.array(v, dtype=t)
+        src = a
+    elif rep == 'strided':
+        src = np.full(2 * n + 1, junk, dtype=t)
+        src[1::2] = v
+        a = src[1::2]
+    elif rep == 'column':
+        src = np.full((n, 3), junk, dtype=t)
+        src[:, 1] = v
+        a = src[:, 1]
+    elif rep == 'fortran-row':
+        src = np.full((3, n), junk, dtype=t, order='F')
+        src[1, :] = v
+        a = src[1, :]
+    elif rep == 'reversed':
+        src = np.array(list(v)[::-1], dtype=t)
+        a = src[::-1]
+    elif rep == 'readonly':
+        src = np.array(v, dtype=t)
+        a = src[:]
+        a.setflags(write=False)
+    elif rep == 'bigendian':
+        src = np.array(v, dtype=np.dtype(t).newbyteorder('>'))
+        a = src
+    else:
+        raise ValueError(rep)
+    if sources is not None:
+        sources.append(src)
+    return a
+
+
+def make_scalar(v, dt, rep='python'):
+    if rep == 'python' or dt == 'str' or not isinstance(v, (int, float)):
+        return v
+    if rep == 'np-same':
+        return NPDT[dt](v)
+    o = _OTHER[dt]
+    try:
+        w = o(v)
+    except (OverflowError, ValueError):
+        return v
+    # only when the other width holds the number exactly (NaN stays NaN)
+    if (isinstance(v, float) and (v != v or float(w) == v)) or (isinstance(v, int) and int(w) == v):
+        return w
+    return v
+
+
+def to_aeic(model, dt, arep='fresh', srep='python', sources=None):
     """Build the AEIC-typed value to assign from a model value."""
     from AEIC.performance.types import ThrustMode, ThrustModeValues
     from AEIC.types import Species, SpeciesValues
@@ -155,12 +215,12 @@ def to_aeic(model, dt):
         return None
     tag, v = model
     if tag == 'sc':
-        return v
+        return make_scalar(v, dt, srep)
     if tag == 'arr':
-        return np.array(v, dtype=NPDT[dt])
+        return make_array(v, dt, arep, sources)
     if tag == 'tm':
-        return ThrustModeValues({ThrustMode[m]: x for m, x in v.items()})
-    return SpeciesValues({Species[sp]: to_aeic(m, dt) for sp, m in v.items()})
+        return ThrustModeValues({ThrustMode[m]: make_scalar(x, dt, srep) for m, x in v.items()})
+    return SpeciesValues({Species[sp]: to_aeic(m, dt, arep, srep, sources) for sp, m in v.items()})
 
 
 # ---------------------------------------------------------------- comparison
